@@ -2,11 +2,13 @@ package props
 
 import (
 	"go/ast"
+	"go/constant"
 	"go/types"
 	"sort"
 	"strings"
 
 	"golang.org/x/tools/go/packages"
+	"golang.org/x/tools/go/ssa"
 
 	. "verif/checker/engine"
 )
@@ -22,10 +24,10 @@ func init() {
 	Register(&Property{
 		ID:       "C07",
 		Patterns: []string{"./unused"},
-		NeedSSA:  false,
+		NeedSSA:  true,
 		Explanation: "Decides one necessary clause of deletion safety: the use-graph walkers of U1000 visit every child of every syntax node kind they handle that can contain an identifier. For each `case *ast.T` clause of the walkers (methods of graph that type-switch over a go/ast interface, found structurally), every field of T whose type is an AST child (Expr, Stmt, Decl, Spec, Node, pointers to node structs, slices of those) must be mentioned in the clause or in the graph method the node is delegated to (R7.1); " +
-			"the walkers' type switches end in the exhaustiveness panic, so an unknown kind cannot be skipped silently (R7.2). An identifier below an unvisited child is never marked used, so an object referenced only there is reported although deleting it breaks the build. " +
-			"It does NOT decide the rule list 1.1–12.1 as semantics, interface satisfaction, or the 'every zero-reference object is reported' clause.",
+			"the walkers' type switches end in the exhaustiveness panic, so an unknown kind cannot be skipped silently (R7.2); for the second bracket — every zero-reference object is reported — two necessary conditions are decided: every declared constant, variable, named type and function is registered in the graph (g.see) for every declared name on every path (R7.3), and Results puts every node into exactly one of Used/Quiet/Unused (R7.4). An identifier below an unvisited child is never marked used, so an object referenced only there is reported although deleting it breaks the build. " +
+			"It does NOT decide the rule list 1.1–12.1 as semantics or interface satisfaction.",
 		RuleText:    "obligation = (walker, node type, child field); decided on the type-checked AST (field types from go/ast's struct definitions, mentions resolved through types.Info)",
 		Assumptions: []string{"go/ast's field types describe where identifiers can occur", "*ast.BasicLit, *ast.CommentGroup and token positions cannot contain identifiers"},
 		Run:         runC07,
@@ -38,6 +40,10 @@ func init() {
 				Old: "\t\tg.read(node.Results, by)\n\n\tcase *ast.FieldList:", New: "\n\tcase *ast.FieldList:"},
 			{Name: "typeassert-type-not-read", File: "unused/unused.go", Rule: "R7.1", KeyPart: "read/*ast.TypeAssertExpr.Type",
 				Old: "\tcase *ast.TypeAssertExpr:\n\t\tg.read(node.X, by)\n\t\tg.read(node.Type, by)\n", New: "\tcase *ast.TypeAssertExpr:\n\t\tg.read(node.X, by)\n"},
+			{Name: "constants-not-registered", File: "unused/unused.go", Rule: "R7.3", KeyPart: "const",
+				Old: "\t\t\t\t\tobj := g.info.ObjectOf(name)\n\t\t\t\t\tg.see(obj, by)\n\t\t\t\t\tg.read(vspec.Type, obj)\n\n\t\t\t\t\tif len(vspec.Values) != 0 {", New: "\t\t\t\t\tobj := g.info.ObjectOf(name)\n\t\t\t\t\tif len(vspec.Values) != 0 {\n\t\t\t\t\t\tg.see(obj, by)\n\t\t\t\t\t}\n\t\t\t\t\tg.read(vspec.Type, obj)\n\n\t\t\t\t\tif len(vspec.Values) != 0 {"},
+			{Name: "quiet-nodes-dropped", File: "unused/unused.go", Rule: "R7.4", KeyPart: "Results",
+				Old: "\t\t} else if state.quiet() {\n\t\t\tres.Quiet = append(res.Quiet, n.obj)\n\t\t} else {\n\t\t\tres.Unused = append(res.Unused, n.obj)\n\t\t}", New: "\t\t} else if !state.quiet() {\n\t\t\tres.Unused = append(res.Unused, n.obj)\n\t\t}"},
 			{Name: "map-key-not-read", File: "unused/unused.go", Rule: "R7.1", KeyPart: "read/*ast.MapType.Key",
 				Old: "\tcase *ast.MapType:\n\t\tg.read(node.Key, by)\n\t\tg.read(node.Value, by)\n", New: "\tcase *ast.MapType:\n\t\tg.read(node.Value, by)\n"},
 		},
@@ -291,5 +297,122 @@ func runC07(c *Ctx) {
 			c.Check(Module+"/unused.(*graph)."+w.name+"::unknown-kinds-panic#"+itoa(ord[w.name]), w.sw.Pos(), ok,
 				"a walker must not silently skip a node kind it does not know: its type switch ends in the exhaustiveness panic")
 		}
+	})
+
+	c.Rule("R7.3", func() {
+		c.Floor("R7.3", 4)
+		decl := c.Func("unused", "(*graph).decl")
+		seeName := Module + "/unused.graph.see"
+		tokPkg := c.Pkgs["go/token"].Types
+		tokVal := func(name string) int64 {
+			k := tokPkg.Scope().Lookup(name).(*types.Const)
+			v, _ := constant.Int64Val(k.Val())
+			return v
+		}
+		forms := []struct {
+			name  string
+			edges map[Edge]bool
+			src   func(ssa.Value) bool
+		}{
+			{"const", EqEdges(decl, func(x, y ssa.Value) bool {
+				k, ok := ConstInt(y)
+				return ok && k == tokVal("CONST") && DerivesLocal(x, IsFieldOf("ast.GenDecl", "Tok"))
+			}), IsFieldOf("ast.ValueSpec", "Names")},
+			{"var", EqEdges(decl, func(x, y ssa.Value) bool {
+				k, ok := ConstInt(y)
+				return ok && k == tokVal("VAR") && DerivesLocal(x, IsFieldOf("ast.GenDecl", "Tok"))
+			}), IsFieldOf("ast.ValueSpec", "Names")},
+			{"type", EqEdges(decl, func(x, y ssa.Value) bool {
+				k, ok := ConstInt(y)
+				return ok && k == tokVal("TYPE") && DerivesLocal(x, IsFieldOf("ast.GenDecl", "Tok"))
+			}), IsFieldOf("ast.TypeSpec", "Name")},
+			{"func", CondEdges(decl, func(cond ssa.Value) (bool, bool) {
+				e, ok := cond.(*ssa.Extract)
+				if !ok || e.Index != 1 {
+					return false, false
+				}
+				ta, ok := e.Tuple.(*ssa.TypeAssert)
+				return ok && strings.HasSuffix(ta.AssertedType.String(), "go/ast.FuncDecl"), true
+			}), IsFieldOf("ast.FuncDecl", "Name")},
+		}
+		for _, f := range forms {
+			found := false
+			why := "no g.see call on the declared object under this declaration form"
+			if len(f.edges) == 0 {
+				why = "the declaration form is no longer distinguished in (*graph).decl"
+			}
+			for _, ci := range CallsTo(decl, false, seeName) {
+				if ok, _ := MustPassEdges(decl, ci, f.edges); !ok || len(f.edges) == 0 {
+					continue
+				}
+				// the object: ObjectOf(<declared name>)
+				var objCall *ssa.Call
+				for x := range BackSlice(ci.Common().Args[1], SliceOpts{ThroughCalls: true}) {
+					if call, ok := x.(*ssa.Call); ok && strings.HasSuffix(CalleeName(&call.Call), "types.Info.ObjectOf") && DerivesLocal(call.Call.Args[1], f.src) {
+						objCall = call
+					}
+				}
+				if objCall == nil {
+					continue
+				}
+				// every path from looking the object up to the next name / the end passes the see call
+				t, path := PathAvoiding(decl, objCall, func(in ssa.Instruction) bool {
+					if _, ok := in.(*ssa.Return); ok {
+						return true
+					}
+					return in == ssa.Instruction(objCall)
+				}, func(in ssa.Instruction) bool { return in == ssa.Instruction(ci) }, nil)
+				if t == nil {
+					found = true
+				} else {
+					why = "a path skips g.see: " + PathString(decl, path)
+				}
+			}
+			c.Check(FuncKey(decl)+"::registers-every-declared-"+f.name, decl.Pos(), found, "every declared %s must be registered in the graph (g.see) — an object that is never registered is never reported, however unused it is: %s", f.name, why)
+		}
+	})
+
+	c.Rule("R7.4", func() {
+		c.Floor("R7.4", 1)
+		res := c.Func("unused", "(*SerializedGraph).Results")
+		var appends []ssa.Instruction
+		fields := map[string]bool{}
+		Instrs(res, false, func(in ssa.Instruction) {
+			call, ok := in.(*ssa.Call)
+			if !ok || !IsCallTo(call, "builtin.append") {
+				return
+			}
+			for _, f := range []string{"Used", "Unused", "Quiet"} {
+				if DerivesLocal(call.Call.Args[0], IsFieldOf("unused.Result", f)) {
+					fields[f] = true
+					appends = append(appends, call)
+				}
+			}
+		})
+		// the per-node state lookup starts an iteration
+		var start ssa.Instruction
+		Instrs(res, false, func(in ssa.Instruction) {
+			if fa, ok := in.(*ssa.FieldAddr); ok && IsFieldOf("unused.Node", "id")(fa) && start == nil {
+				start = fa
+			}
+		})
+		if start == nil || len(appends) < 3 {
+			c.Undecided("Results no longer classifies nodes by appending to Used/Quiet/Unused")
+		}
+		isAppend := func(in ssa.Instruction) bool {
+			for _, a := range appends {
+				if a == in {
+					return true
+				}
+			}
+			return false
+		}
+		t, path := PathAvoiding(res, start, func(in ssa.Instruction) bool {
+			if _, ok := in.(*ssa.Return); ok {
+				return true
+			}
+			return in == start
+		}, isAppend, nil)
+		c.Check(FuncKey(res)+"::every-node-classified", res.Pos(), t == nil && len(fields) == 3, "every node of the graph ends up in exactly one of Used, Quiet or Unused (lists fed: %v); a node that falls through is neither reported nor counted as used; path without classification: %s", SortedKeys(fields), PathString(res, path))
 	})
 }
